@@ -152,6 +152,36 @@ def hier_designs(tier, seed):
     for d in (1, 2):
         yield (f"flat/history/is_flat-asked-while-growing/d{d}", lambda d=d: probed(d))
 
+    # modules WITHOUT instances (pads, feed-throughs, placeholders) instantiated next to devices: they are hierarchy, not leaves
+    def with_empty(where, only_empty):
+        def b():
+            Pad = h.Module(name="EmptyPad")
+            Pad.p = h.Port()
+            Feed = h.Module(name="EmptyFeed")
+            Feed.a, Feed.b = h.Port(), h.Port()
+            Feed.w = h.Signal()
+            cell = h.Module(name="EmptyCell")
+            cell.x, cell.y = h.Port(), h.Port()
+            cell.pad = Pad(p=cell.x)
+            cell.ft = Feed(a=cell.x, b=cell.y)
+            if not only_empty:
+                cell.r = h.R(r=1)(p=cell.x, n=cell.y)
+            if where == "top":
+                return cell
+            top = h.Module(name="EmptyTop")
+            top.x, top.y = h.Port(), h.Port()
+            top.k = h.Signal()
+            top.c1 = cell(x=top.x, y=top.k)
+            top.c2 = cell(x=top.k, y=top.y)
+            top.pad = Pad(p=top.k)
+            if not only_empty:
+                top.r = h.R(r=2)(p=top.x, n=top.y)
+            return top
+        return b
+    for where in ("top", "below"):
+        for only_empty in (False, True):
+            yield (f"flat/instance-less-modules/{where}/{'only' if only_empty else 'with-devices'}", with_empty(where, only_empty))
+
     def twice():
         from hdl21.flatten import flatten as _fl
         return _fl(build((2, False, False, {})))
